@@ -40,6 +40,7 @@ Allowed(op, a) ==
        [] op.k = "open"  -> CASE op.v = "ok"    -> a.r = "ok" /\ a.detail = "."
                               [] op.v = "bad"   -> a.r = "ok" /\ a.detail = "E"
                               [] op.v = "mixed" -> a.r = "ok" /\ a.detail = ".E."
+                              [] op.v = "max"   -> a.r = "ok" /\ a.detail = ".x253"      \* 253 files, every one opened
                               [] op.v = "longbatch" -> CallErr(a) \/ (a.r = "ok" /\ a.detail # "")   \* per-item errors or one error
                               [] OTHER          -> CallErr(a)          \* empty batch
        [] op.k = "delete" -> IF op.v = "ok" THEN a.r = "ok" ELSE CallErr(a)      \* bad, huge, emptypath
